@@ -336,6 +336,10 @@ theorem wf_step (c : Cfg) (s s' : State) (e : Event) (hw : WF c s) (hs : step c 
         omega
       · simp only [hh, if_false]; exact hw.failsExact h'
     · simp [hp] at hs
+  | health flags =>
+    simp only [step, Option.some.injEq] at hs
+    subst hs
+    exact ⟨hw.lenC, hw.lenF, hw.lenT, hw.hostsOk, hw.connsExact, hw.failsExact, hw.cap⟩
 
 theorem wf_run (c : Cfg) : ∀ (es : List Event) (s s' : State), WF c s → run c s es = some s' → WF c s' := by
   intro es
@@ -406,7 +410,7 @@ theorem inflight_getD (c : Cfg) (s : State) (h : Nat) (hh : h < c.nHosts) :
   rfl
 
 theorem specAvail_eq (c : Cfg) (s : State) (hw : WF c s) (h : Nat) :
-    specAvail c s.timers (inflightList c s) h = avail c s h := by
+    specAvail c s.unhealthy s.timers (inflightList c s) h = avail c s h := by
   unfold specAvail avail down full
   by_cases hh : h < c.nHosts
   · rw [inflight_getD c s h hh]
@@ -424,7 +428,7 @@ theorem specAvail_eq (c : Cfg) (s : State) (hw : WF c s) (h : Nat) :
       · have : a ≥ c.maxFails := by omega
         simp [hf, this]
     rw [e1, e2, e3 (s.timers.getD h 0)]
-    cases c.unhealthy.getD h false <;> cases decide (s.timers.getD h 0 ≥ c.maxFails) <;> simp [hh]
+    cases s.unhealthy.getD h false <;> cases decide (s.timers.getD h 0 ≥ c.maxFails) <;> simp [hh]
   · simp [hh]
 
 theorem modify_modify_cancel (l : List Nat) (h : Nat) : dropN (bumpN l h) h = l := by
@@ -623,8 +627,9 @@ theorem allZero_conns (c : Cfg) (s : State) (hw : WF c s) (hz : allZeroN (inflig
   subst this; rfl
 
 theorem checkSnap_none (c : Cfg) (s s' : State) (l : Label) (hw : WF c s) (hw' : WF c s')
-    (hl : labelOK c s l) (hts : ∀ h, l = .sel h → s'.timers = s.timers) (htn : l = .none → s'.timers = s.timers) :
-    checkSnap c s'.timers (inflightList c s) (snap c s' l) = none := by
+    (hl : labelOK c s l) (hts : ∀ h, l = .sel h → s'.timers = s.timers) (htn : l = .none → s'.timers = s.timers)
+    (hun : (∀ f, l ≠ .hc f) → s'.unhealthy = s.unhealthy) :
+    checkSnap c s'.unhealthy s'.timers (inflightList c s) (snap c s' l) = none := by
   unfold checkSnap snap
   simp only
   have e1 : (s'.conns != natsToInts ((List.range c.nHosts).map (forwardingTo s'))) = false := by
@@ -635,17 +640,18 @@ theorem checkSnap_none (c : Cfg) (s s' : State) (l : Label) (hw : WF c s) (hw' :
   unfold inflightList at e2
   have e3 : (s'.fails != natsToInts s'.timers) = false := by
     rw [← fails_eq_timers c s' hw']; simp
-  simp only [e1, e2, e3, Bool.false_eq_true, if_false]
+  have e4 : (s'.unhealthy != s'.unhealthy) = false := by simp
+  simp only [e1, e2, e3, e4, Bool.false_eq_true, if_false]
   cases l with
   | sel h =>
     simp only
-    rw [hts h rfl, specAvail_eq c s hw h]
+    rw [hts h rfl, hun (by intro f hf; cases hf), specAvail_eq c s hw h]
     simp only [labelOK] at hl
     simp [hl]
   | none =>
     simp only
-    rw [htn rfl]
-    have : (List.range c.nHosts).any (specAvail c s.timers (inflightList c s)) = false := by
+    rw [htn rfl, hun (by intro f hf; cases hf)]
+    have : (List.range c.nHosts).any (specAvail c s.unhealthy s.timers (inflightList c s)) = false := by
       rw [Bool.eq_false_iff]
       intro hany
       obtain ⟨k, hk, hav⟩ := List.any_eq_true.mp hany
@@ -665,6 +671,7 @@ theorem checkSnap_none (c : Cfg) (s s' : State) (l : Label) (hw : WF c s) (hw' :
   | fin _ _ => rfl
   | noop => rfl
   | exp _ => rfl
+  | hc _ => rfl
 
 theorem stepD_timer_timers (c : Cfg) (s : State) (h : Nat) :
     (stepD c s (.timer h)).timers = s.timers.modify h (· - 1) := by
@@ -719,58 +726,203 @@ theorem afterCancel_spec (c : Cfg) (ex : Expiry) (s : State) (t : Nat) (r : Stat
   | fin _ _ => exact ⟨hw, htim, hlab⟩
   | noop => exact ⟨hw, htim, hlab⟩
   | exp _ => exact ⟨hw, htim, hlab⟩
+  | hc _ => exact ⟨hw, htim, hlab⟩
   | final => exact ⟨hw, htim, hlab⟩
+
+/-- only the health-check event writes the health flags -/
+theorem stepD_unhealthy (c : Cfg) (s : State) (e : Event) (hne : ∀ f, e ≠ .health f) :
+    (stepD c s e).unhealthy = s.unhealthy := by
+  cases e with
+  | select t ch a =>
+    simp only [stepD, step]
+    cases s.pcs[t]? with
+    | none => rfl
+    | some pc =>
+      cases pc with
+      | idle =>
+        cases ch with
+        | none => rfl
+        | some h => by_cases ha : avail c s h = true <;> simp [ha, setPC]
+      | selected _ => rfl
+      | forwarding _ => rfl
+      | failed _ => rfl
+      | done => rfl
+  | reserve t =>
+    simp only [stepD, step]
+    cases s.pcs[t]? with
+    | none => rfl
+    | some pc =>
+      cases pc with
+      | selected h => by_cases hf : full c s h = true <;> simp [hf, setPC]
+      | idle => rfl
+      | forwarding _ => rfl
+      | failed _ => rfl
+      | done => rfl
+  | finish t o =>
+    simp only [stepD, step]
+    cases s.pcs[t]? with
+    | none => rfl
+    | some pc =>
+      cases pc with
+      | forwarding h => cases o <;> rfl
+      | idle => rfl
+      | selected _ => rfl
+      | failed _ => rfl
+      | done => rfl
+  | countFail t a =>
+    simp only [stepD, step]
+    cases s.pcs[t]? with
+    | none => rfl
+    | some pc =>
+      cases pc with
+      | failed h => by_cases hc : c.countFails = true <;> simp [hc, setPC]
+      | idle => rfl
+      | selected _ => rfl
+      | forwarding _ => rfl
+      | done => rfl
+  | timer h =>
+    simp only [stepD, step]
+    by_cases hp : getN s.timers h > 0 <;> simp [hp]
+  | health f => exact absurd rfl (hne f)
+
+theorem advance_unhealthy (c : Cfg) (ex : Expiry) (s : State) (t x : Nat) :
+    (advance c ex s t x).1.unhealthy = s.unhealthy ∧ ∀ f, (advance c ex s t x).2 ≠ .hc f := by
+  have hsel : ∀ ch a s0, (stepD c s0 (.select t ch a)).unhealthy = s0.unhealthy :=
+    fun ch a s0 => stepD_unhealthy c s0 _ (by intro f hf; cases hf)
+  have hres : ∀ s0, (stepD c s0 (.reserve t)).unhealthy = s0.unhealthy :=
+    fun s0 => stepD_unhealthy c s0 _ (by intro f hf; cases hf)
+  have hfin : ∀ o s0, (stepD c s0 (.finish t o)).unhealthy = s0.unhealthy :=
+    fun o s0 => stepD_unhealthy c s0 _ (by intro f hf; cases hf)
+  have hcf : ∀ a s0, (stepD c s0 (.countFail t a)).unhealthy = s0.unhealthy :=
+    fun a s0 => stepD_unhealthy c s0 _ (by intro f hf; cases hf)
+  have htm : ∀ h s0, (stepD c s0 (.timer h)).unhealthy = s0.unhealthy :=
+    fun h s0 => stepD_unhealthy c s0 _ (by intro f hf; cases hf)
+  unfold advance
+  cases hpc : s.pcs[t]? with
+  | none => exact ⟨rfl, by intro f hf; cases hf⟩
+  | some pc =>
+    cases pc with
+    | idle =>
+      simp only
+      cases chooseHost c s x with
+      | some h => exact ⟨hsel _ _ _, by intro f hf; cases hf⟩
+      | none => exact ⟨hsel _ _ _, by intro f hf; cases hf⟩
+    | selected h =>
+      simp only
+      by_cases hf : ((stepD c s (.reserve t)).pcs[t]? == some (.forwarding h)) = true
+      · simp only [hf, if_true]; exact ⟨hres _, by intro f hf; cases hf⟩
+      · simp only [hf, Bool.false_eq_true, if_false]
+        cases firstAvail c (stepD c s (.reserve t)) with
+        | some _ => exact ⟨hres _, by intro f hf; cases hf⟩
+        | none => exact ⟨by rw [hsel, hres], by intro f hf; cases hf⟩
+    | forwarding h =>
+      simp only
+      refine ⟨?_, by intro f hf; cases hf⟩
+      by_cases ho : (decodeOutcome x == Outcome.err) = true
+      · simp only [ho, if_true, Bool.true_and]
+        by_cases hi : (ex == Expiry.immediate) = true
+        · simp only [hi, if_true]; rw [htm, hcf, hfin]
+        · simp only [hi, Bool.false_eq_true, if_false]; rw [hcf, hfin]
+      · simp only [ho, Bool.false_eq_true, if_false, Bool.false_and]; rw [hfin]
+    | failed _ => exact ⟨rfl, by intro f hf; cases hf⟩
+    | done => exact ⟨rfl, by intro f hf; cases hf⟩
+
+theorem afterCancel_unhealthy (c : Cfg) (t : Nat) (r : State × Label) (s : State)
+    (h : r.1.unhealthy = s.unhealthy ∧ ∀ f, r.2 ≠ .hc f) :
+    (afterCancel c t r).1.unhealthy = s.unhealthy ∧ ∀ f, (afterCancel c t r).2 ≠ .hc f := by
+  obtain ⟨s', l⟩ := r
+  cases l with
+  | fwd h' =>
+    refine ⟨?_, by intro f hf; cases hf⟩
+    show (stepD c s' (.finish t .cancel)).unhealthy = _
+    rw [stepD_unhealthy c s' _ (by intro f hf; cases hf)]
+    exact h.1
+  | sel _ => exact h
+  | none => exact h
+  | lost _ => exact h
+  | fin _ _ => exact h
+  | noop => exact h
+  | exp _ => exact h
+  | hc _ => exact h
+  | final => exact h
 
 theorem verdictGo_replay (c : Cfg) (ex : Expiry) (hcf : c.countFails = (ex != .off)) :
     ∀ (es : List (Nat × Nat)) (s : State) (q cs : List Nat), WF c s →
-      verdictGo c ex s.timers (inflightList c s) (replay c ex s q cs es) = "ok" := by
+      verdictGo c ex s.unhealthy s.timers (inflightList c s) (replay c ex s q cs es) = "ok" := by
   intro es
   induction es with
   | nil =>
     intro s q cs hw
     simp only [replay, verdictGo]
-    have : outstandingAfter ex s.timers (snap c s .final).label = s.timers := rfl
-    rw [this, checkSnap_none c s s .final hw hw trivial (by intro h hh; cases hh) (by intro hh; cases hh)]
+    have h1 : outstandingAfter ex s.timers (snap c s .final).label = s.timers := rfl
+    have h2 : unhealthyAfter s.unhealthy (snap c s .final).label = s.unhealthy := rfl
+    rw [h1, h2, checkSnap_none c s s .final hw hw trivial (by intro h hh; cases hh) (by intro hh; cases hh) (fun _ => rfl)]
   | cons e es ih =>
     intro s q cs hw
     obtain ⟨t, x⟩ := e
-    have hnoop : ∀ (rest : List Snap), verdictGo c ex s.timers (inflightList c s) rest = "ok" →
-        verdictGo c ex s.timers (inflightList c s) (snap c s .noop :: rest) = "ok" := by
-      intro rest hrest
+    -- a snapshot of a state reached by an action that is not a health check
+    have key : ∀ r : State × Label, WF c r.1 → r.1.timers = outstandingAfter ex s.timers r.2 → labelOK c s r.2 →
+        (r.1.unhealthy = s.unhealthy ∧ ∀ f, r.2 ≠ .hc f) →
+        ∀ rest, verdictGo c ex r.1.unhealthy r.1.timers (inflightList c r.1) rest = "ok" →
+          verdictGo c ex s.unhealthy s.timers (inflightList c s) (snap c r.1 r.2 :: rest) = "ok" := by
+      intro r hw' htim hlab hunh rest hrest
       simp only [verdictGo]
-      have : outstandingAfter ex s.timers (snap c s .noop).label = s.timers := rfl
-      rw [this, checkSnap_none c s s .noop hw hw trivial (by intro h hh; cases hh) (by intro hh; cases hh)]
+      have hout : outstandingAfter ex s.timers (snap c r.1 r.2).label = r.1.timers := by rw [htim]; rfl
+      have hu : unhealthyAfter s.unhealthy (snap c r.1 r.2).label = r.1.unhealthy := by
+        show unhealthyAfter s.unhealthy r.2 = _
+        rw [hunh.1]
+        cases hl : r.2 with
+        | hc f => exact absurd hl (hunh.2 f)
+        | sel _ => rfl
+        | none => rfl
+        | fwd _ => rfl
+        | lost _ => rfl
+        | fin _ _ => rfl
+        | noop => rfl
+        | exp _ => rfl
+        | final => rfl
+      rw [hout, hu, checkSnap_none c s r.1 r.2 hw hw' hlab
+        (by intro h hh; rw [htim, hh]; rfl) (by intro hh; rw [htim, hh]; rfl) (fun _ => hunh.1)]
       exact hrest
     by_cases ht : t = waitMark
     · simp only [replay, ht, if_true]
       cases q with
-      | nil => exact hnoop _ (ih s [] cs hw)
+      | nil => exact key (s, .noop) hw rfl trivial ⟨rfl, by intro f hf; cases hf⟩ _ (ih s [] cs hw)
       | cons h q' =>
-        simp only [verdictGo]
         have hw' := wf_stepD c s (.timer h) hw
-        have hout : outstandingAfter ex s.timers (snap c (stepD c s (.timer h)) (.exp h)).label =
-            (stepD c s (.timer h)).timers := by rw [stepD_timer_timers]; rfl
-        rw [hout, checkSnap_none c s _ (.exp h) hw hw' trivial (by intro h hh; cases hh) (by intro hh; cases hh)]
-        exact ih _ q' cs hw'
+        exact key (stepD c s (.timer h), .exp h) hw' (by rw [stepD_timer_timers]; rfl) trivial
+          ⟨stepD_unhealthy c s _ (by intro f hf; cases hf), by intro f hf; cases hf⟩ _ (ih _ q' cs hw')
     · simp only [replay, ht, if_false]
-      by_cases hcm : t ≥ cancelMark
-      · simp only [hcm, if_true]
-        exact hnoop _ (ih s q _ hw)
-      · simp only [hcm, if_false]
-        obtain ⟨hw0, htim0, hlab0⟩ := advance_spec c ex s t x hw hcf
-        have key : ∀ r : State × Label, WF c r.1 → r.1.timers = outstandingAfter ex s.timers r.2 → labelOK c s r.2 →
-            ∀ q', verdictGo c ex s.timers (inflightList c s) (snap c r.1 r.2 :: replay c ex r.1 q' cs es) = "ok" := by
-          intro r hw' htim hlab q'
-          simp only [verdictGo]
-          have hout : outstandingAfter ex s.timers (snap c r.1 r.2).label = r.1.timers := by rw [htim]; rfl
-          rw [hout, checkSnap_none c s r.1 r.2 hw hw' hlab
-            (by intro h hh; rw [htim, hh]; rfl) (by intro hh; rw [htim, hh]; rfl)]
-          exact ih _ _ cs hw'
-        by_cases hc : cs.contains t = true
-        · simp only [hc, if_true]
-          obtain ⟨h1, h2, h3⟩ := afterCancel_spec c ex s t _ hw0 htim0 hlab0
-          exact key _ h1 h2 h3 _
-        · simp only [hc, Bool.false_eq_true, if_false]
-          exact key _ hw0 htim0 hlab0 _
+      by_cases hhm : t ≥ healthMark
+      · -- one pass of the health check
+        simp only [hhm, if_true, verdictGo]
+        have hw' := wf_stepD c s (.health ((List.range c.nHosts).map (fun h => x / 2 ^ h % 2 == 1))) hw
+        have hst : stepD c s (.health ((List.range c.nHosts).map (fun h => x / 2 ^ h % 2 == 1))) =
+            { s with unhealthy := (List.range c.nHosts).map (fun h => x / 2 ^ h % 2 == 1) } := rfl
+        rw [hst] at hw' ⊢
+        have h1 : outstandingAfter ex s.timers (snap c { s with unhealthy := (List.range c.nHosts).map (fun h => x / 2 ^ h % 2 == 1) }
+            (.hc ((List.range c.nHosts).map (fun h => x / 2 ^ h % 2 == 1)))).label = s.timers := rfl
+        have h2 : unhealthyAfter s.unhealthy (snap c { s with unhealthy := (List.range c.nHosts).map (fun h => x / 2 ^ h % 2 == 1) }
+            (.hc ((List.range c.nHosts).map (fun h => x / 2 ^ h % 2 == 1)))).label =
+            (List.range c.nHosts).map (fun h => x / 2 ^ h % 2 == 1) := rfl
+        rw [h1, h2]
+        have := checkSnap_none c s { s with unhealthy := (List.range c.nHosts).map (fun h => x / 2 ^ h % 2 == 1) }
+          (.hc ((List.range c.nHosts).map (fun h => x / 2 ^ h % 2 == 1))) hw hw' trivial
+          (by intro h hh; cases hh) (by intro hh; cases hh) (by intro hne; exact absurd rfl (hne _))
+        rw [this]
+        exact ih _ q cs hw'
+      · simp only [hhm, if_false]
+        by_cases hcm : t ≥ cancelMark
+        · simp only [hcm, if_true]
+          exact key (s, .noop) hw rfl trivial ⟨rfl, by intro f hf; cases hf⟩ _ (ih s q _ hw)
+        · simp only [hcm, if_false]
+          obtain ⟨hw0, htim0, hlab0⟩ := advance_spec c ex s t x hw hcf
+          have hun0 := advance_unhealthy c ex s t x
+          by_cases hc : cs.contains t = true
+          · simp only [hc, if_true]
+            obtain ⟨h1, h2, h3⟩ := afterCancel_spec c ex s t _ hw0 htim0 hlab0
+            exact key _ h1 h2 h3 (afterCancel_unhealthy c t _ s hun0) _ (ih _ _ cs h1)
+          · simp only [hc, Bool.false_eq_true, if_false]
+            exact key _ hw0 htim0 hlab0 hun0 _ (ih _ _ cs hw0)
 
 end Casket.Accounting
